@@ -62,6 +62,39 @@ func dependsOn(p *packages.Package, e ast.Node, objs map[types.Object]bool, scop
 func ruleLoopDep(c *Ctx, rule, short, name, callee string) {
 	fd, p := c.decl(short, name)
 	fn := p.Types.Name() + "." + name
+	// the whole loop may have been moved into a helper called once (m.mirror(...)): analyse the helper
+	hasLoopCall := func(body ast.Node) bool {
+		found := false
+		ast.Inspect(body, func(x ast.Node) bool {
+			switch s := x.(type) {
+			case *ast.RangeStmt:
+				found = found || callsMethod(s.Body, callee)
+			case *ast.ForStmt:
+				found = found || callsMethod(s.Body, callee)
+			}
+			return true
+		})
+		return found
+	}
+	for hops := 0; hops < 3 && !hasLoopCall(fd.Body); hops++ {
+		var next *ast.FuncDecl
+		ast.Inspect(fd.Body, func(x ast.Node) bool {
+			switch x.(type) {
+			case *ast.RangeStmt, *ast.ForStmt:
+				return false // a helper called per row is handled below
+			}
+			if call, ok := x.(*ast.CallExpr); ok && next == nil {
+				if h := helperDecl(p, call); h != nil && h != fd && callsMethod(h.Body, callee) {
+					next = h
+				}
+			}
+			return true
+		})
+		if next == nil {
+			break
+		}
+		fd = next
+	}
 	n := 0
 	var helpers []*ast.FuncDecl
 	var visit func(node ast.Node, iter map[types.Object]bool, body ast.Node)
